@@ -62,6 +62,13 @@ func TestModelsAgainstStdlib(t *testing.T) {
 			}
 		}
 	}
+	for i := 0; i < 300000; i++ {
+		s := randStr(r, "ab#\xe2\x99\xaf\xad", 8)
+		pairs := [][]string{{"\u266f", "#", "\u266d", "b"}, {"a", "xy", "ab", "Q"}, {"ab", "", "b", "bb"}, {"#", "\u266f"}}[r.Intn(4)]
+		if got, want := ReplacerReplace(s, pairs), strings.NewReplacer(pairs...).Replace(s); got != want {
+			t.Fatalf("Replacer(%q,%q): %q vs %q", s, pairs, got, want)
+		}
+	}
 	const spaces = " \t\n\v\f\rx\xc2\x85\xa0\xe1\x9a\x80\xe2\x81\x9f\xa8\xaf\xe3\x8a\xf0\x9f"
 	for i := 0; i < 500000; i++ {
 		s := randStr(r, spaces, 7)
